@@ -90,10 +90,14 @@ Inherit(ta, v) == \A k \in DOMAIN v : v[k][5] = ta[5] /\ v[k][6] = ta[6] /\ v[k]
 \* `ex` = the embedding is exact (all coordinates dyadic: every float operation is exact).  Under an inexact
 \* embedding (steps 0.1, 1/3, 1e-3) the exact comparisons of containment and point membership are decided
 \* by the last bit when an edge is shared, so only the unambiguous direction is required there.
-Holds(ta, tb, o, g, v, ex) ==
+\* `sm` = small-magnitude embedding (1e-6 units): FRAME's area tolerance (the square root of the distance tolerance) is
+\* then larger than a lattice cell, so the thresholded boolean overlap() may answer 0 for a genuine overlap; only "1 =>
+\* the rectangles overlap" is required of it there (the statement speaks of the overlap AREA, which stays exact).
+Holds(ta, tb, o, g, v, ex, sm) ==
   LET r == Untag(ta)  s == Untag(tb) IN
   CASE o = "area_overlap" -> v = OverlapArea(r, s)
-    [] o = "overlap" -> v = B2I(Overlaps(r, s))
+    [] o = "overlap" -> IF sm THEN IsBit(v) /\ (v = 1 => Overlaps(r, s)) ELSE v = B2I(Overlaps(r, s))
+    [] o = "move" -> TRUE
     [] o = "mul" -> IF Overlaps(r, s) /\ RegOf(ta) = RegOf(tb)
                     THEN Len(v) = 1 /\ Untag(v[1]) = Inter(r, s) /\ Inherit(ta, v)
                     ELSE \/ v = <<>>
@@ -150,7 +154,15 @@ Apply(o, g) == /\ Defined(a, o, g)
                /\ op' = o /\ arg' = g /\ res' = Expected(a, b, o, g)
                /\ UNCHANGED <<a, b>>
 
-ApplyPair == pc = "pair" /\ pc' = "pairdone" /\ \E o \in PairOps : Apply(o, <<>>)
+\* the live object `a` is moved IN PLACE (FRAME code does this: Module.recenter_rectangles adds to r.center.x / .y);
+\* every later operation must answer for the new position
+MoveA(dx, dy) == /\ a' = <<a[1] + dx, a[2] + dy, a[3] + dx, a[4] + dy, a[5], a[6], a[7]>>
+                 /\ op' = "move" /\ arg' = <<dx, dy>> /\ res' = <<>> /\ UNCHANGED b
+MovePair == /\ pc = "pair" /\ pc' = "pairmoved"
+            /\ \E d \in {<<K, 0>>, <<-K, 0>>, <<0, K>>, <<0, -K>>} :
+                 /\ a[1] + d[1] >= 0 /\ a[2] + d[2] >= 0 /\ a[3] + d[1] <= N * K /\ a[4] + d[2] <= N * K
+                 /\ MoveA(d[1], d[2])
+ApplyPair == pc \in {"pair", "pairmoved"} /\ pc' = "pairdone" /\ \E o \in PairOps : Apply(o, <<>>)
 ApplyOne == pc = "one" /\ pc' = "onedone" /\ \E o \in OneOps : \E g \in OneArgs(o) : Apply(o, g)
 
 \* behaviour generation: one line per picked operand(s) listing every applicable (operation, argument)
@@ -162,13 +174,13 @@ EmitPair == /\ EMIT /\ pc = "pair" /\ pc' = "emitted" /\ UNCHANGED <<a, b, op, a
 EmitOne == /\ EMIT /\ pc = "one" /\ pc' = "emitted" /\ UNCHANGED <<a, b, op, arg, res>>
            /\ PrintT(ToJson(CaseOf(a, b, "one", OneCases(a))))
 
-Next == PickPair \/ PickOne \/ (~EMIT /\ (ApplyPair \/ ApplyOne)) \/ EmitPair \/ EmitOne
+Next == PickPair \/ PickOne \/ (~EMIT /\ (MovePair \/ ApplyPair \/ ApplyOne)) \/ EmitPair \/ EmitOne
 Spec == Init /\ [][Next]_vars
 
 (***************************************************************************)
 (* Invariants: the laws of C18 hold for the specified operations           *)
 (***************************************************************************)
-InPair == pc \in {"pair", "pairdone"}
+InPair == pc \in {"pair", "pairmoved", "pairdone"}
 InOne == pc \in {"one", "onedone"}
 LawSymmetric == InPair => LemmaOverlapSym(Untag(a), Untag(b)) /\ Inter(Untag(a), Untag(b)) = Inter(Untag(b), Untag(a))
 LawIntersection == InPair => LemmaInter(Untag(a), Untag(b))
@@ -176,7 +188,7 @@ LawInterExists == InPair => ((Expected(a, b, "mul", <<>>) # <<>>) <=> (OverlapAr
 LawInsideArea == InPair => (Inside(Untag(a), Untag(b)) <=> OverlapArea(Untag(a), Untag(b)) = Area(Untag(a)))
 LawTouch == InPair => (Touch(Untag(a), Untag(b)) <=> Gap(Untag(a), Untag(b)) = 0) /\ (Overlaps(Untag(a), Untag(b)) => Touch(Untag(a), Untag(b)))
 \* the specified result always satisfies the property clauses (the model is an instance of the property)
-LawModelMeetsProperty == pc \in {"pairdone", "onedone"} => Holds(a, b, op, arg, res, TRUE)
+LawModelMeetsProperty == pc \in {"pairdone", "onedone"} => Holds(a, b, op, arg, res, TRUE, FALSE)
 LawSplitTiles == (pc = "onedone" /\ op \in {"split", "split_horizontal", "split_vertical", "rectangle_grid"})
                     => Tiles(PiecesOf(res), Untag(a)) /\ Inherit(a, res)
 LawCuttable == (pc = "onedone" /\ op = "x_cuttable") =>
